@@ -65,13 +65,13 @@ def _q15(ea, eb, ec, all_, force, pi, answer, pr_i, lnk, hashing):
         w.confirm_answer = answer
         w.install()
     try:
-        before = w.vfs.snapshot()
+        before = w.view()
         aborted = False
         try:
             w.clean(pats, all_, force)
         except click.Abort:
             aborted = True
-        after = w.vfs.snapshot()
+        after = w.view()
         prompted = (not pats) and (not force)
         if aborted != (prompted and not answer):
             return "aborted=%s, prompt shown=%s answer=%s" % (aborted, prompted, answer)
